@@ -51,7 +51,8 @@ def seq_len(s):
 
 
 def select(s, i):
-    return s[i]
+    """total: an out-of-range read is None natively (unspecified symbolically); contracts guard it"""
+    return s[i] if 0 <= i < len(s) else None
 
 
 def bits(x, lo, n):
